@@ -141,6 +141,33 @@ def run(F, R, tier):
                     "%s can return without attempting %s, e.g. under %s" % (fid.replace(ST, ""), nm, bad[0] if bad else ""))
     R.floor("C17.R5", n_sites, 12, "call sites leading to a copy/delete of the tables, each a must-pass of its function")
 
+    # ------------------------------------------------------------------ R7 a copy's destination folder exists when the copy runs
+    # the copy primitives only log a failed fs::copy; a copy into a folder that no earlier step of the same command created fails on a
+    # fresh machine and the command still exits 0 (backup without the unit file => restore cannot reinstate it)
+    R.rule("C17.R7", "each copy's destination folder is an OS folder or was created earlier in the same command")
+    OS_DIRS = {"/usr/sbin", "/usr/lib/systemd/system"}
+    n7 = 0
+    for fid, env in ((ST + "linux::backup_files", None), (ST + "linux::copy_files", {"src_folder": {"<SRC>"}}),
+                     (ST + "linux::setup_service", {"service_name": {"azure-proxy-agent"}, "service_file_dir": {"<DIR>"}})):
+        if fid not in F.fns:
+            continue
+        made = set()
+        for e in S.effects(fid, env) if env else S.effects(fid):
+            if is_log(e):
+                continue
+            if e[0] in ("create_dir_all", "create_dir"):
+                made |= set(e[1][0])
+            elif e[0] == "copy":
+                for dst in e[1][1]:
+                    parent = dst.rsplit("/", 1)[0]
+                    n7 += 1
+                    ok = parent in OS_DIRS or any(m == parent or m.startswith(parent + "/") for m in made)
+                    R.check(ok, "C17.R7", "C17.R7:%s:dest-folder:%s" % (fid, dst), e[2],
+                            "%s: the folder of %s exists when the copy runs (created earlier: %s)" % (fid.replace(ST, ""), dst, parent in OS_DIRS and "OS folder" or "yes"),
+                            "%s copies to %s before anything created %s: on a fresh machine the copy fails (only logged) and the file is missing "
+                            "from then on" % (fid.replace(ST, ""), dst, parent))
+    R.floor("C17.R7", n7, 8, "copies with a destination folder obligation")
+
     # ------------------------------------------------------------------ R6 what can abort uninstall before the files are deleted
     # main's uninstall_service() exits the process when service::stop_and_delete_service fails, i.e. *before* delete_package. The only
     # accepted failure source on that path is "systemctl could not be spawned" (Command::output); a non-zero systemctl exit status,
